@@ -146,12 +146,14 @@ func (w *seqWorld) buildEntry(id int, sp seqEntrySpec) *seqEntry {
 	if p.IsPrecert {
 		ikh = sqHx(p.IssuerKeyHash[:])
 	}
-	w.tr.Line("entry %d %d %s %s %s %s %s", id, pre, sqHx(p.Certificate), ikh, sqHx(p.PreCertificate), il, nm)
+	if !w.mute {
+		w.tr.Line("entry %d %d %s %s %s %s %s", id, pre, sqHx(p.Certificate), ikh, sqHx(p.PreCertificate), il, nm)
+	}
 	return e
 }
 
 func sqParseOutcome(s string) outcome {
-	switch s {
+	switch strings.TrimSuffix(s, "d") {
 	case "errA":
 		return outErrA
 	case "errN":
@@ -170,7 +172,12 @@ func runScenario(sc *seqScenario, sid int, tr *Trace, st *Stats, workdir string)
 	w.sid = sid
 	defer w.cleanup()
 	w.orc.scenario = func() any { return sc }
-	tr.Line("scenario %d pool=%d name=%s family=%s", sid, sc.Pool, sqHx([]byte(w.name)), sc.Family)
+	if sc.Family == "runseq" {
+		w.mute = true // oracle-only: rounds are started by RunSequencer's own ticker
+		w.autoClock = true
+	} else {
+		tr.Line("scenario %d pool=%d name=%s family=%s", sid, sc.Pool, sqHx([]byte(w.name)), sc.Family)
+	}
 	for i, sp := range sc.Entries {
 		w.entries = append(w.entries, w.buildEntry(i, sp))
 	}
@@ -184,7 +191,9 @@ func runScenario(sc *seqScenario, sid int, tr *Trace, st *Stats, workdir string)
 		}
 	}
 	w.finish()
-	tr.Line("end %d", sid)
+	if !w.mute {
+		tr.Line("end %d", sid)
+	}
 	return w.orc.fails
 }
 
@@ -285,13 +294,48 @@ func (w *seqWorld) exec(c *seqCmd) {
 		a := w.sched.launchGen("round", in.id, in.gen, func(ctx context.Context) any { return l.VerifSequence(ctx) })
 		in.main = a
 		w.after(in)
+	case "runseq":
+		if !in.alive || in.stopped || (in.main != nil && !w.sched.isFinished(in.main)) {
+			return
+		}
+		w.ev("%d launch runseq", in.id)
+		l := in.log
+		in.runseqMode = true
+		if c.V > 0 {
+			w.autoClock = false // stalled clock
+		}
+		var cctx context.Context
+		a := w.sched.launchGenCtx("runseq", in.id, in.gen, func(ctx context.Context) (context.Context, func()) {
+			cc, cancel := context.WithCancel(ctx)
+			in.runseqCancel = cancel
+			cctx = cc
+			return cc, cancel
+		}, func(ctx context.Context) any { return l.RunSequencer(ctx, 2*time.Millisecond) })
+		_ = cctx
+		in.main = a
+		w.after(in)
+	case "stopseq":
+		if in.runseqCancel != nil {
+			w.ev("%d stopseq", in.id)
+			in.runseqCancel()
+			// the loop notices the cancellation at its next select; let its in-flight round finish
+			for k := 0; k < 40 && in.main != nil && !w.sched.isFinished(in.main); k++ {
+				ops := w.sched.pendingOf(in.main)
+				if len(ops) == 0 {
+					w.sched.settle(in.main)
+					continue
+				}
+				w.grantOp(in, ops[0], outOK)
+			}
+			w.after(in)
+		}
 	case "submit":
-		if !in.alive || in.stopped || c.Entry >= len(w.entries) {
+		if !in.alive || (in.stopped && !in.runseqMode) || c.Entry >= len(w.entries) {
 			return
 		}
 		e := w.entries[c.Entry]
 		l := in.log
-		s := &seqSub{inst: in, gen: in.gen, entry: e, low: c.Low, done: make(chan struct{}), seq: len(w.subs)}
+		s := &seqSub{inst: in, gen: in.gen, entry: e, low: c.Low, done: make(chan struct{}), seq: len(w.subs), afterStop: in.stopped}
 		w.subs = append(w.subs, s)
 		type res struct {
 			f   ctlog.VerifWaitFunc
@@ -312,6 +356,9 @@ func (w *seqWorld) exec(c *seqCmd) {
 			x := r.(res)
 			s.source = x.src
 			w.ev("%d submitted %d %d %s", in.id, e.ID, low, x.src)
+			if in.runseqMode && (x.src == "sequencer" || x.src == "pool") {
+				in.roundSubs = append(in.roundSubs, s)
+			}
 			switch x.src {
 			case "sequencer":
 				nseq := 0
@@ -320,7 +367,7 @@ func (w *seqWorld) exec(c *seqCmd) {
 						nseq++
 					}
 				}
-				if w.pool > 0 && nseq >= w.pool {
+				if w.pool > 0 && nseq >= w.pool && !in.runseqMode {
 					evictExpected = true
 				}
 				in.poolSubs = append(in.poolSubs, s)
@@ -387,6 +434,7 @@ func (w *seqWorld) exec(c *seqCmd) {
 			return
 		}
 		op := ops[c.Pick%len(ops)]
+		op.deadline = strings.HasSuffix(c.Out, "d")
 		w.grantOp(in, op, sqParseOutcome(c.Out))
 		w.after(in)
 	case "run":
@@ -403,6 +451,7 @@ func (w *seqWorld) exec(c *seqCmd) {
 			out := outOK
 			if f, ok := c.Faults[fmt.Sprint(k)]; ok {
 				out = sqParseOutcome(f)
+				ops[0].deadline = strings.HasSuffix(f, "d")
 			}
 			w.grantOp(in, ops[0], out)
 			k++
@@ -454,6 +503,12 @@ func (w *seqWorld) grantOp(in *seqInst, op *pendingOp, out outcome) {
 		}
 	}
 	w.st.Count("op:" + op.kind)
+	// a load that overlaps operations of another instance is not a crash recovery in isolation
+	for _, other := range w.insts {
+		if other != in && other.main != nil && (other.main.kind == "load" || other.main.kind == "create") && !w.sched.isFinished(other.main) {
+			other.loadFaultFree = false
+		}
+	}
 	a := op.actor
 	idx := 0
 	for i, p := range w.sched.pendingOf(a) {
@@ -537,6 +592,12 @@ func (w *seqWorld) after(in *seqInst) {
 			in.roundSubs = nil
 		case "submit":
 			a.onDone(a.result)
+		case "runseq":
+			err, _ := a.result.(error)
+			w.ev("%d runseqend %v", in.id, err != nil)
+			in.stopped = true
+			in.main = nil
+			w.orc.afterStop(in, err)
 		}
 	}
 }
@@ -598,6 +659,9 @@ func (w *seqWorld) collectSubs(subs []*seqSub) {
 
 // collect reports every waiter that has finished (waiting briefly for `expect` of them).
 func (w *seqWorld) collect(expect int) {
+	if w.mute {
+		time.Sleep(time.Millisecond) // RunSequencer-driven: waiters complete on their own schedule
+	}
 	// immediate outcomes (cache hits, rejections) complete without the scheduler's help
 	for _, s := range w.subs {
 		if s.got || s.dropped || s.source == "" {
@@ -624,6 +688,7 @@ func (w *seqWorld) collect(expect int) {
 
 func (w *seqWorld) report(s *seqSub) {
 	s.got = true
+	defer w.orc.checkAfterStopSub(s)
 	if s.err == nil {
 		w.ev("%d ack %d %d %d %s", s.inst.id, s.entry.ID, s.idx, s.ts, s.source)
 		w.st.Count("ack:" + s.source)
